@@ -146,6 +146,48 @@ def check_release(program, rep):
         return
     site = f.where
     val = f.params()[1]
+    # --- release by cursor: `while i < len(q) and enabled: ev = q[i]; i += 1;
+    # dispatch(*ev)` with the delivered prefix deleted afterwards.  The release
+    # is re-entrant (a callback may disable and enable again, which starts a
+    # nested release over the SAME list and compacts it), so a cursor that is
+    # local to one activation of the setter is wrong whatever else the loop
+    # does; a cursor kept in the dispatcher is a shape this rule does not
+    # carry an argument for (analysis error, no verdict).
+    aliases = {QUEUE} | {norm(t) for n in ast.walk(f.node)
+                         if isinstance(n, ast.Assign)
+                         and norm(n.value) == QUEUE for t in n.targets}
+    for wl in [n for n in ast.walk(f.node) if isinstance(n, ast.While)]:
+        delivers = any(isinstance(c, ast.Call)
+                       and dotted(c.func) == 'self.dispatch'
+                       for c in ast.walk(wl))
+        pops = any(_front_pop(c) is not None or (
+            isinstance(c, ast.Call) and isinstance(c.func, ast.Attribute)
+            and c.func.attr in ('pop', 'popleft')
+            and norm(c.func.value) in aliases) for c in ast.walk(wl))
+        reads = [x for x in ast.walk(wl) if isinstance(x, ast.Subscript)
+                 and isinstance(x.ctx, ast.Load) and norm(x.value) in aliases
+                 and not isinstance(x.slice, (ast.Constant, ast.Slice))]
+        if not (delivers and reads and not pops):
+            continue
+        idx = reads[0].slice
+        if isinstance(idx, ast.Name):
+            rep.bad('C04.release', site, reads[0],
+                    f'the release walks the queue with the cursor `{idx.id}`, '
+                    'a local of this activation of the setter, while the '
+                    'release is re-entrant: a callback that disables and '
+                    'enables again (or enables during the release) starts a '
+                    'nested release over the same list - it begins at its own '
+                    'cursor 0 (events already delivered, or their cleared '
+                    'slots, are delivered again / TypeError) and the outer '
+                    'cursor goes stale when the nested one compacts the list',
+                    line=reads[0].lineno)
+        else:
+            rep.inconclusive('C04.release', site, norm(reads[0]),
+                             'the release walks the queue by a cursor kept '
+                             f'in the dispatcher ({norm(idx)}) instead of '
+                             'removing the front element: shape not decided '
+                             'by this rule')
+        return
     exits, w = evrules.walk_method(program, f, exc=True)
     rep.count('paths', len(exits))
     n_del = 0
